@@ -1658,7 +1658,7 @@ class C15(Property):
         "decides_httpURL_partial", "httpURL_key", "httpPartsLoop_eq", "attr_table", "http_no_value_accepted", "C15_HttpFull_fails",
         "http_rule_honoured_partial", "http_netloc_rule_ignored",
         "decides_urlCanonicalizer", "canonicalizer_value", "canonicalizer_failure_keeps_value", "canonicalizer_idempotent",
-        "blankLoop_ok", "blankLoop_bad", "canonical_has_no_fragment", "value_preserved",
+        "blankLoop_ok", "blankLoop_bad", "canonical_has_no_fragment", "value_preserved", "warn_eq_error",
         "decides_isEmail", "isEmail_length_on_idna", "isEmail_accepts_short_idna",
         "messages", "messages_total", "false_verdict_records_one", "true_verdict_records_nothing", "expansion_of_chosen",
         "verdict_shape",
